@@ -200,8 +200,16 @@ def rule_rehash_before_unlink(ctx):
     ctx.check(ok, cl.fq, "parent rmdir only when empty and not root", "empty-parent pruning guard changed", "guarded")
     ap = ctx.prog.func("clean.add_clean_subcommand")
     s2 = re.sub(r"\s+", " ", ast.unparse(ap.node))
-    ctx.check("action='store_false', default=True, dest='safe'" in s2, ap.fq, "safe mode is the default (--unsafe turns it off)", "safe default changed", "default True")
-    ctx.check("'--commit', action='store_true', default=False" in s2, ap.fq, "dry run is the default", "--commit default changed", "default False")
+    opts = {}
+    for c in calls_in(ap.node):
+        if callee_name(c) == "add_argument":
+            flags = [a.value for a in c.args if isinstance(a, ast.Constant) and isinstance(a.value, str)]
+            kw = {k.arg: ast.unparse(k.value) for k in c.keywords if k.arg}
+            for f in flags:
+                opts[f] = kw
+    un, co = opts.get("--unsafe", {}), opts.get("--commit", {})
+    ctx.check(un.get("action") == "'store_false'" and un.get("default") == "True" and un.get("dest") == "'safe'", ap.fq, "safe mode is the default (--unsafe turns it off)", f"safe default changed: {un}", "default True")
+    ctx.check(co.get("action") == "'store_true'" and co.get("default") == "False", ap.fq, "dry run is the default", f"--commit default changed: {co}", "default False")
 
 
 def rule_finalize_guards(ctx):
